@@ -2,7 +2,7 @@
    Gen/Pdm.v is regenerated on every run from the CURRENT
      src/dendropy/calculate/phylogeneticdistance.py  (PhylogeneticDistanceMatrix.compile_from_tree,
        _mirror_lookups, mrca, patristic_distance, path_edge_count, _calculate_mean_pairwise_distance,
-       _calculate_mean_nearest_taxon_distance; the arithmetic of nj_tree / upgma_tree)
+       _calculate_mean_nearest_taxon_distance; the main loops and the arithmetic of nj_tree / upgma_tree)
      src/dendropy/datamodel/treemodel/_tree.py       (Tree.mrca: the descent loop)
    by py/dv/gen_pdm.py, statement by statement, over the primitives of Model/C14GenPrims.v (whose header
    states the Python semantics assumed).  Each theorem says that a generated function equals the
@@ -16,7 +16,7 @@
    code leaves that field of its receiver untouched.  Domain: the property's (leaf taxa present and
    pairwise distinct, on leaves only) plus distinct node identities, which every Python tree has. *)
 From Coq Require Import ZArith QArith List Bool.
-From DV Require Import Model.PyPrims Model.Tree Model.C14Model Model.C14Spec Model.C14GenPrims Gen.Pdm.
+From DV Require Import Model.PyPrims Model.Tree Model.C14Model Model.C14Spec Model.C14Spec2 Model.C14GenPrims Model.C14GenObj Model.C14GenMrcaPrims Gen.Pdm.
 From DV Require Import Proofs.C14GenTop.
 Import ListNotations.
 Open Scope Z_scope.
@@ -158,6 +158,40 @@ Theorem tree_mrca_model_uses_generated_descent :
 Proof. exact tree_mrca_uses_generated_descent. Qed.
 Print Assumptions tree_mrca_model_uses_generated_descent.
 
+(* Tree.mrca AS A WHOLE (py/dv/c14_mrcagen.py): keyword-argument handling (leafset_bitmask / taxa / taxon_labels,
+   start_node, is_bipartitions_updated), the conditional refresh through encode_bipartitions, the test of the start
+   node and the descent.  The keyword arguments are a record of optional values (Model/C14GenMrcaPrims.v); the call
+   forms of the hand model correspond to the records below.  Same result, same tree object afterwards, same
+   exception (the tree after an exception is not reported by the generated code). *)
+Theorem gen_tree_mrca_eq_model :
+  forall (fuel : nat) (ns : nspace) (mt : mtree) (arg : mrca_arg) (start : option Z) (updated : bool),
+  (size (mt_tree mt) <= fuel)%nat ->
+  let kw := mkKw start
+                 (match arg with ByMask m => Some m | _ => None end)
+                 (match arg with ByTaxa l => Some l | _ => None end)
+                 (match arg with ByLabels l => Some l | _ => None end)
+                 (Some updated) in
+  match tree_mrca false ns mt arg start updated with
+  | (Ok r, mt') => Tree_mrca fuel ns mt kw = Ok (r, mt')
+  | (Err e, _) => Tree_mrca fuel ns mt kw = Err e
+  | (OutOfFuel, _) => True
+  end.
+Proof. exact gen_tree_mrca_top. Qed.
+Print Assumptions gen_tree_mrca_eq_model.
+
+(* treemeasure.patristic_distance(tree, taxon1, taxon2, is_bipartitions_updated): tree.mrca, the two
+   find_node calls and the two walks `while n != mrca` (on fuel; nodes have distinct identities) *)
+Theorem gen_tm_patristic_distance_eq_model :
+  forall (fuel : nat) (ns : nspace) (mt : mtree) (a b : Z) (updated : bool),
+  (size (mt_tree mt) < fuel)%nat ->
+  match tm_patristic false ns mt a b updated with
+  | (Ok d, mt') => NoDup (ids (mt_tree mt')) -> TM_patristic_distance fuel ns mt a b updated = Ok (d, mt')
+  | (Err e, mt') => NoDup (ids (mt_tree mt')) -> TM_patristic_distance fuel ns mt a b updated = Err e
+  | (OutOfFuel, _) => True
+  end.
+Proof. exact gen_tm_patristic_top. Qed.
+Print Assumptions gen_tm_patristic_distance_eq_model.
+
 (* nj_tree / upgma_tree: every arithmetic expression and comparison of the hand model's nj_step /
    upgma_step (left) is the one extracted from the source (right); Qred does not change the rational *)
 Theorem gen_nj_formulas_eq_model :
@@ -186,6 +220,66 @@ Theorem gen_upgma_formulas_eq_model :
 Proof. exact gen_upgma_formulas_top. Qed.
 Print Assumptions gen_upgma_formulas_eq_model.
 
+(* THE MAIN LOOPS of upgma_tree / nj_tree (everything from `node_pool = []` to `return tree`, compiled by
+   py/dv/c14_objgen.py as a program over an object heap: Model/C14GenObj.v states the Python semantics assumed -
+   nodes are identities allocated by tree.node_factory(), their attributes live in the heap, floats are
+   rationals in canonical form).  original_dmatrix is the table the method selects, the list is
+   list(self._mapped_taxa) in this process's order; the result is the seed node's identity and the heap,
+   `rebuild` reads the tree off it.  Whenever the hand model's upgma_tree / nj_tree returns a tree on a
+   complete matrix, the generated program returns exactly that tree (same node identities, child order,
+   taxa and lengths): its loop performs the model's upgma_step / nj_step on the node pool. *)
+Theorem gen_upgma_tree_eq_model :
+  forall (none_key : Z) (M : tbl Q) (order : list Z) (T : qtree),
+  NoDup order -> mcomplete M order -> upgma_tree M order = Ok T ->
+  exists i h, PDM_upgma_tree none_key (length order) M order = Ok (i, h) /\
+              forall fuel, (qdepth T <= fuel)%nat -> rebuild fuel h i = Ok T.
+Proof. exact gen_upgma_tree_top. Qed.
+Print Assumptions gen_upgma_tree_eq_model.
+
+Theorem gen_nj_tree_eq_model :
+  forall (none_key : Z) (M : tbl Q) (order : list Z) (T : qtree),
+  NoDup order -> mcomplete M order -> nj_tree M order = Ok T ->
+  exists i h, PDM_nj_tree none_key (length order) M order = Ok (i, h) /\
+              forall fuel, (qdepth T <= fuel)%nat -> rebuild fuel h i = Ok T.
+Proof. exact gen_nj_tree_top. Qed.
+Print Assumptions gen_nj_tree_eq_model.
+
+(* hence the recovery theorems of Props/C14.v hold of the generated code *)
+Theorem gen_upgma_recovers_ultrametric :
+  forall (none_key : Z) (t : tree) (p : pdm) (h : Z) (order : list Z),
+  rbin t -> good_leaves t -> t_kids t <> [] -> positive_internal t -> nonneg_lengths t -> equidistant h t ->
+  compile_from_tree t = Ok p ->
+  NoDup order -> (forall a, In a order <-> In (Some a) (leaf_taxa t)) ->
+  exists T i hp, PDM_upgma_tree none_key (length order) (qtable p true) order = Ok (i, hp) /\
+                 (forall fuel, (qdepth T <= fuel)%nat -> rebuild fuel hp i = Ok T) /\
+                 qsame_rooted (tq t) T.
+Proof. exact gen_upgma_recovers_top. Qed.
+Print Assumptions gen_upgma_recovers_ultrametric.
+
+Theorem gen_nj_recovers_additive_up_to_five_taxa :
+  forall (none_key : Z) (M : tbl Q) (order : list Z),
+  NoDup order -> order <> [] -> (length order <= 5)%nat ->
+  mcomplete M order -> msymmetric M order -> mfour_point_strict M order ->
+  exists T i hp, PDM_nj_tree none_key (length order) M order = Ok (i, hp) /\
+                 (forall fuel, (qdepth T <= fuel)%nat -> rebuild fuel hp i = Ok T) /\
+                 forall a b, In a order -> In b order -> a <> b -> exists q, qdist T a b = Some q /\ (q == mval M a b)%Q.
+Proof. exact gen_nj_recovers_small_top. Qed.
+Print Assumptions gen_nj_recovers_additive_up_to_five_taxa.
+
+(* and, with Props/C14.v tree_matrix_four_point_strict: the generated nj_tree realises the distances of every binary
+   tree with positive internal lengths and at most five leaves *)
+Theorem gen_nj_recovers_tree_up_to_five_leaves :
+  forall (none_key : Z) (t : tree) (p : pdm) (order : list Z),
+  rbin t -> good_leaves t -> t_kids t <> [] -> positive_internal t -> nonneg_lengths t ->
+  compile_from_tree t = Ok p ->
+  NoDup order -> order <> [] -> (length order <= 5)%nat -> (forall a, In a order -> In (Some a) (leaf_taxa t)) ->
+  exists T i hp, PDM_nj_tree none_key (length order) (qtable p true) order = Ok (i, hp) /\
+                 (forall fuel, (qdepth T <= fuel)%nat -> rebuild fuel hp i = Ok T) /\
+                 forall a b, In a order -> In b order -> a <> b ->
+                   exists q d, qdist T a b = Some q /\ dist t a b = Some d /\ (q == uq d)%Q.
+Proof. exact gen_nj_recovers_tree_small_top. Qed.
+Print Assumptions gen_nj_recovers_tree_up_to_five_leaves.
+
 (* non-vacuity: a tree in the domain, both sides computed; the generated descent on it *)
 Theorem gen_compile_from_tree_example :
   let ex := (T 0 None None None [T 1 None None (Some 1024) [T 2 (Some 10) None (Some 512) []; T 3 (Some 11) None None []]; T 4 (Some 12) None (Some 2048) []]) in
@@ -204,3 +298,12 @@ Theorem gen_tree_mrca_descent_example :
   = Ok (Some (T 1 None None (Some 1024) [T 2 (Some 10) None (Some 512) []; T 3 (Some 11) None None []])).
 Proof. exact gen_tree_mrca_descent_example_top. Qed.
 Print Assumptions gen_tree_mrca_descent_example.
+
+Theorem gen_tree_builders_example :
+  let M := [(10, [(11, (2 # 1)%Q); (12, (4 # 1)%Q)]); (11, [(10, (2 # 1)%Q); (12, (4 # 1)%Q)]); (12, [(10, (4 # 1)%Q); (11, (4 # 1)%Q)])] in
+  (do r <- PDM_upgma_tree (-1) 3 M [10; 11; 12] ;; rebuild 5 (snd r) (fst r)) = upgma_tree M [10; 11; 12] /\
+  (do r <- PDM_nj_tree (-1) 3 M [10; 11; 12] ;; rebuild 5 (snd r) (fst r)) = nj_tree M [10; 11; 12] /\
+  upgma_tree M [10; 11; 12]
+  = Ok (QT 4 None None [QT 2 (Some 12) (Some (2 # 1)%Q) []; QT 3 None (Some (1 # 1)%Q) [QT 0 (Some 10) (Some (1 # 1)%Q) []; QT 1 (Some 11) (Some (1 # 1)%Q) []]]).
+Proof. exact gen_tree_builders_example_top. Qed.
+Print Assumptions gen_tree_builders_example.
